@@ -335,6 +335,11 @@ func runC19(c *fw.Ctx) {
 		{8, 9, 10 * R, "fill-then-zero"}, {8, 16, 10 * R, "fill-then-zero"}, {16, 17, 10 * R, "fill-then-zero"}, {4, 5, Rs / 2, "fill-then-zero"},
 		{8, 80, R, "reset-then-stream"}, {16, 400, R, "reset-then-stream"}, {64, 2000, R, "reset-then-stream"}, {64, 40, R, "reset-then-stream"},
 		{8, 12, 10 * R, "zero-first"}, {16, 40, 10 * R, "ascending-pairs"}, {8, 9, 10 * R, "ascending-pairs"}, {64, 65, 4 * R, "fill-then-zero"},
+		// buffers just beyond 64, 128 and 256 elements (one machine word of random bits per
+		// 64 elements in a halving pass), with enough runs that 7 standard errors stay below
+		// 0.45 % of D: an error affecting one element per pass (about 1/size) is visible
+		{65, 650, 15 * R, ""}, {72, 600, 15 * R, ""}, {100, 1000, 10 * R, ""}, {130, 1300, 8 * R, ""}, {200, 2000, 10 * R, ""}, {260, 2600, 8 * R, ""},
+		{66, 400, 15 * R, "ascending-pairs"}, {129, 700, 10 * R, "zero-first"},
 	}
 	for i, cfg := range cfgs {
 		if i%c.NBlocks != c.Block {
